@@ -554,6 +554,14 @@ impl NamingActor {
             for instance_key in keys {
                 let service_key = instance_key.get_service_key();
                 let short_key = instance_key.get_short_key();
+                // 连接断开只移除该连接的临时实例，永久实例不随连接移除
+                let is_perpetual = self
+                    .get_instance(&service_key, &short_key)
+                    .map(|i| !i.ephemeral)
+                    .unwrap_or(false);
+                if is_perpetual {
+                    continue;
+                }
                 self.remove_instance(&service_key, &short_key, Some(client_id));
             }
         }
